@@ -27,6 +27,7 @@ type SpecEnv struct {
 	inOld bool
 	wantCell bool
 	preferNames bool // loop invariants: source variables denote their current values
+	cur  *State // the post-state while evaluating inside old(...)
 }
 
 func (e *Engine) specEnv(st, old *State, fr *Frame) *SpecEnv {
@@ -161,6 +162,12 @@ func (e *Engine) lookupName(name string, se *SpecEnv) (Val, bool) {
 	if v, ok := se.st.ghost[name]; ok {
 		return v, true
 	}
+	if se.cur != nil {
+		// ghost results of assumed contracts (e.g. sortperm) are not state: they mean the same inside old(...)
+		if v, ok := se.cur.ghost[name]; ok && v.G == nil {
+			return v, true
+		}
+	}
 	if gv, ok := e.cs.GhostVars[name]; ok {
 		return e.ghostArray(se.st, gv, se), true
 	}
@@ -216,6 +223,9 @@ func (e *Engine) evalSpec(x *Expr, se *SpecEnv) Val {
 		panic(unsupported("unknown name %q in spec (known: %s)", x.Name, e.knownNames(se)))
 	case "old":
 		n := *se
+		if n.cur == nil {
+			n.cur = se.st
+		}
 		n.st = se.old
 		n.inOld = true
 		if se.fr != nil && se.fr.parent == nil {
@@ -723,6 +733,13 @@ func (e *Engine) evalCall(x *Expr, se *SpecEnv) Val {
 			}
 		}
 		panic(unsupported("addr(): no field %s", fe.Name))
+	case "shufperm":
+		// shufperm(src, n): the permutation rand's Shuffle applies for generator state src (uninterpreted)
+		return Val{T: nil, L: []Term{e.ctx.App("shufperm", ArrSort(SInt, SInt), arg(0).L[0], arg(1).L[0])}}
+	case "randstate":
+		return mkInt(e.ctx.App("randstate", SInt, arg(0).L[0]))
+	case "sameperm":
+		return mkBool(T(SBool, "(= %s %s)", arg(0).L[0].S, arg(1).L[0].S))
 	case "mark":
 		// mark(x): an always-true marker used purely as an instantiation trigger
 		a := arg(0)
